@@ -234,6 +234,10 @@ func (tds *Conn) ReadFrom() {
 
 		// err from packet.ReadFrom
 		if errors.Is(err, io.EOF) {
+			// The connection was closed after the last bytes of the
+			// packet. Record the error so consumers are not left
+			// waiting for packages that will never arrive.
+			tds.errCh <- fmt.Errorf("error reading packet: %w", err)
 			return
 		}
 	}
